@@ -26,7 +26,8 @@ tie (T-acc + T-diff): random hierarchies (1-3 levels, Bits/struct signals, slice
   in-process (PYTHONHASHSEED=0) and a subset under PYTHONHASHSEED=1,2 in fresh interpreters; nets canonicalised as sets
   of repr() names.  The connection graph is taken from the GENERATED statements (+ the implicit clk/reset connections),
   not from pymtl3; nets_ok / writer_ok / net_disjoint_ok are evaluated inside Coq on what get_all_value_nets() returned.
-  Outcomes (nets+writers or exception class) must be identical across all variants.  Simulation (DefaultPassGroup):
+  Accept-vs-reject and, among accepted variants, nets+writers must be identical across all variants (which exception class a
+  rejected design with several defects reports first is C09's business, not C08's).  Simulation (DefaultPassGroup):
   after sim_eval_combinational every member of every net equals the writer, for random inputs.
 partial: C08_net_values is about a bit-copy model of the net block; that the generated net blocks / shared residence objects
   of GenDAGPass+PrepareSimPass behave like it is checked differentially (simulation) only.  The iterative resolution
@@ -312,10 +313,10 @@ def check_chains(ctx, d, top, src):
         obj = ec.lookup(top, e.full)
         r, w, ch = ec.obj_chain(obj)
       except Exception as ex:
-        ctx.violation(f'C08:harness-interval:{d.name}', f'cannot map {e.full} to a bit interval: {ex!r}', {'design_source': src}, found_input=False); return
+        ctx.violation('C08:harness-interval', f'cannot map {e.full} to a bit interval: {ex!r}', {'design_source': src}, found_input=False); return
       lo, hi = (ch[-1][1], ch[-1][2]) if ch else (0, w)
       if (r, lo, hi) != (e.sig.root, e.lo, e.hi) or repr(obj) != e.full:
-        ctx.violation(f'C08:harness-interval:{d.name}', f'generator interval of {e.full} = {(e.sig.root, e.lo, e.hi)} but pymtl3 metadata says {(r, lo, hi)} ({obj!r})',
+        ctx.violation('C08:harness-interval', f'generator interval of {e.full} = {(e.sig.root, e.lo, e.hi)} but pymtl3 metadata says {(r, lo, hi)} ({obj!r})',
                       {'design_source': src}, found_input=False); return
 
 def simulate(ctx, d, top, nets, src, tag):
@@ -326,7 +327,7 @@ def simulate(ctx, d, top, nets, src, tag):
     top.sim_reset()
   except Exception as e:
     if d.mode == 'legal' and 'same-net-overlap' not in d.features:
-      ctx.violation(f'C08:sim-build:{ec.dhash(src)}', f'legal design {d.name} elaborated but could not be simulated: {type(e).__name__}: {str(e)[:200]}',
+      ctx.violation(f'C08:sim-build:{type(e).__name__}', f'legal design {d.name} elaborated but could not be simulated: {type(e).__name__}: {str(e)[:200]}',
                     {'design_source': src, 'traceback': traceback.format_exc()[-1500:]})
     else: ctx.hist['sim-skipped:' + type(e).__name__] = ctx.hist.get('sim-skipped:' + type(e).__name__, 0) + 1
     for f in ('/tmp/upblk-dag.gv', '/tmp/upblk-dag.gv.pdf'):
@@ -344,7 +345,7 @@ def simulate(ctx, d, top, nets, src, tag):
         wv = int(w.split('(0x')[1].rstrip(')'), 16) if w.startswith('Bits') else ec.sim_value(top, w)
         bad = [(m, ec.sim_value(top, m)) for m in ms if not m.startswith('Bits') and ec.sim_value(top, m) != wv]
       except Exception as e:
-        ctx.violation(f'C08:harness-simvalue:{d.name}', f'cannot read simulated value: {e!r}', {'design_source': src}, found_input=False); return True
+        ctx.violation('C08:harness-simvalue', f'cannot read simulated value: {e!r}', {'design_source': src}, found_input=False); return True
       if bad:
         key = 'C08:same-net-overlapping-slices' if 'same-net-overlap' in d.features else feature_key(d, src, 'net-value')
         ctx.violation(key, f'design {d.name} ({tag}): after sim_eval_combinational members of the net written by {w} differ from the writer: writer={wv:#x}, members={[(m, hex(v)) for m, v in bad[:4]]} (inputs {vals})',
@@ -352,13 +353,14 @@ def simulate(ctx, d, top, nets, src, tag):
         return True
   return True
 
-def feature_key(d, src, kind):
-  """stable key for the one understood root cause (a block writing a struct and one of its fields makes the result of
-  writer resolution depend on set iteration order); everything else is keyed by the design text"""
+def feature_key(d, src, kind, detail=''):
+  """seed-stable keys: the one understood root cause (a block writing a struct and one of its fields makes the result of
+  writer resolution depend on set iteration order) has its own key; everything else is keyed by what went wrong, the
+  generation mode and a short structural detail - never by a design hash"""
   if 'blk-parent+field' in d.features and kind in ('order-dependent', 'hashseed-dependent', 'writer', 'net-value'):
     # also the accepted-although-doubly-driven manifestations (acceptor 'writer' failure, differing simulated values)
     return 'C08:same-block-parent-and-field-write'
-  return f'C08:{kind}:{ec.dhash(src)}'
+  return f'C08:{kind}:{d.mode}' + (':' + detail if detail else '')
 
 def run(ctx):
   setup_impl_path()
@@ -406,8 +408,8 @@ def run(ctx):
     if any(o[0][0] == 'ok' for o in outcomes): nok += 1
     # a design built to be legal (port rules respected, one driver per bit, every net driven) must get its writers named
     if mode == 'legal' and not d.features and outcomes[0][0][0] == 'err':
-      ctx.violation(f'C08:legal-rejected:{ec.dhash(outcomes[0][1])}',
-                    f'design {d.name} is legal by construction (every net has exactly one driven member, port rules respected) but elaboration raises {outcomes[0][0][1]}: {outcomes[0][2][2][:200]}',
+      ctx.violation(f'C08:legal-rejected:{outcomes[0][2][1]}',
+                    f'design {d.name} is legal by construction (every net has exactly one driven member, port rules respected) but elaboration raises {outcomes[0][2][1]}: {outcomes[0][2][2][:200]}',
                     {'design_source': outcomes[0][1], 'exception': list(outcomes[0][2][1:3])})
     ctx.hist[f'levels:{d.levels}'] = ctx.hist.get(f'levels:{d.levels}', 0) + 1
     ctx.hist[f'connects:{"1-3" if nconn <= 3 else "4-10" if nconn <= 10 else "11-30"}'] = ctx.hist.get(f'connects:{"1-3" if nconn <= 3 else "4-10" if nconn <= 10 else "11-30"}', 0) + 1
@@ -415,12 +417,12 @@ def run(ctx):
     k0 = outcomes[0][0]
     for v, (k, src, r) in enumerate(outcomes):
       if k != k0:
-        def show(k): return k[1] if k[0] == 'err' else f'{len(k[1])} nets'
-        diff = ''
+        def show(k, r): return f'rejection ({r[1]})' if k[0] == 'err' else f'{len(k[1])} nets'
+        diff, detail = '', 'accept-vs-reject'
         if k[0] == 'ok' and k0[0] == 'ok':
-          diff = f'; differing nets: {sorted(set(k[1]) ^ set(k0[1]))[:4]}'
-        ctx.violation(feature_key(d, outcomes[0][1], 'order-dependent'),
-                      f'design {d.name} ({mode}): statement order 0 gives {show(k0)} but order {v} (a permutation / side swap of the same statements) gives {show(k)}{diff}',
+          diff = f'; differing nets: {sorted(set(k[1]) ^ set(k0[1]))[:4]}'; detail = 'nets-or-writers-differ'
+        ctx.violation(feature_key(d, outcomes[0][1], 'order-dependent', detail),
+                      f'design {d.name} ({mode}): statement order 0 gives {show(k0, outcomes[0][2])} but order {v} (a permutation / side swap of the same statements) gives {show(k, r)}{diff}',
                       {'design_source_order0': outcomes[0][1], f'design_source_order{v}': src, 'outcome0': repr(outcomes[0][2][:2])[:1500], f'outcome{v}': repr(r[:2])[:1500]})
         break
     if j < 2: ctx.sample({'design': d.name, 'mode': mode, 'source_tail': outcomes[0][1][-700:], 'outcome': repr(outcomes[0][2][:2])[:600]})
@@ -431,8 +433,11 @@ def run(ctx):
       got = res.get(k)
       ctx.count((k, 'hashseed', hs), True, cls=f'hashseed:{hs}')
       if got is None or ec.outcome_key(got) != exp:
-        ctx.violation(feature_key(d, src, 'hashseed-dependent'),
-                      f'design {k}: PYTHONHASHSEED=0 gives {exp[0]}/{exp[1] if exp[0] == "err" else len(exp[1])} but PYTHONHASHSEED={hs} gives {None if got is None else ec.outcome_key(got)[:2] if got[0] == "err" else "ok/" + str(len(got[1]))}',
+        gk = None if got is None else ec.outcome_key(got)
+        detail = 'accept-vs-reject' if gk is None or gk[0] != exp[0] else 'nets-or-writers-differ'
+        def show(k): return None if k is None else 'rejected' if k[0] == 'err' else f'accepted/{len(k[1])} nets'
+        ctx.violation(feature_key(d, src, 'hashseed-dependent', detail),
+                      f'design {k}: PYTHONHASHSEED=0 gives {show(exp)} but PYTHONHASHSEED={hs} gives {show(gk)}',
                       {'design_source': src, 'hashseed': hs, 'expected': repr(exp)[:1500], 'got': repr(got)[:1500]})
   # ---- certified acceptors on what pymtl3 produced
   bad = ctx.coq_bad_indices('acc', 'Base.Prelude Sched.Accept Elab.Nets Elab.Writers', DEFS, 'ctype', cases, 'acc_ok c', shard=60)
@@ -447,7 +452,7 @@ def run(ctx):
   bad2 = ctx.coq_bad_indices('dis', 'Base.Prelude Sched.Accept Elab.Nets Elab.Writers', DEFS, 'ctype', cases, 'dis_ok c', shard=60)
   for i in bad2[:12]:
     d, src, obs, edges, v = meta[i]
-    key = 'C08:same-net-overlapping-slices' if 'same-net-overlap' in d.features else f'C08:net-overlap:{ec.dhash(src)}'
+    key = 'C08:same-net-overlapping-slices' if 'same-net-overlap' in d.features else f'C08:net-overlap:{d.mode}'
     ctx.violation(key, f'design {d.name}: elaboration accepted a net in which two non-writer members overlap (one net drives a bit twice); nets {[o for o in obs if len(o[1]) > 2][:4]}',
                   {'design_source': src, 'observed': obs})
   ctx.extra.update({'designs': ndes, 'designs_elaborating': nok, 'acceptor_cases': len(cases), 'hashseed_cases': len(worker_cases)})
